@@ -201,6 +201,19 @@ def param_array_size(node, f, funcs):
     return min(sizes) if sizes else None
 
 
+def format_alternatives(node):
+    """the string literals a format expression can evaluate to when it is a (nested) conditional between literals; None otherwise"""
+    n = strip(node, casts=True)
+    if n.get('kind') == 'ConditionalOperator':
+        ks = [c for c in kids(n) if c.get('kind')]
+        if len(ks) != 3:
+            return None
+        a, b = format_alternatives(ks[1]), format_alternatives(ks[2])
+        return None if a is None or b is None else a + b
+    v = astdb.string_value(n)
+    return None if v is None else [v]
+
+
 def check_formatted_writes(chk, funcs):
     n = 0
     for tu, f in funcs:
@@ -218,6 +231,21 @@ def check_formatted_writes(chk, funcs):
                 if size is None:
                     size = param_array_size(args[di], f, funcs)
                 fmt = astdb.string_value(args[fi])
+                alts = None
+                if fmt is None:
+                    # a choice between string literals (cond ? "fmt1" : "fmt2"): every alternative must fit
+                    alts = format_alternatives(args[fi])
+                if size is not None and alts:
+                    for fmt_ in alts:
+                        total, why = worst_length(fmt_, args[fi + 1:], tu)
+                        if total is None:
+                            chk.fail('R10.1', site, '%s at %s into %s[%d]: %s' % (cn, loc, astdb.expr_text(args[di]), size, why), site, loc)
+                            continue
+                        chk.expect(total + 1 <= size, 'R10.1', site,
+                                   '%s(%s, "%s", ...) can write %d characters plus the terminator into %s[%d]: %s'
+                                   % (cn, astdb.expr_text(args[di]), fmt_, total, astdb.expr_text(args[di]), size, '; '.join(why)), site, loc,
+                                   detail_ok='"%s" -> at most %d+1 bytes into [%d]' % (fmt_, total, size))
+                    continue
                 if size is None or fmt is None:
                     chk.fail('R10.1', site, '%s at %s writes to %s with format %s: destination size or format is not a compile-time constant'
                              % (cn, loc, astdb.expr_text(args[di]), astdb.expr_text(args[fi])), site, loc)
